@@ -179,6 +179,14 @@ def nontrivial_resub(case, gd):
 
 def check(ctx):
     rows = R.run_kind(ctx, 'resub')
+    # tdslow=1: the teardown of every attempt takes a moment and is logged when it has finished. Under the driven schedule (the terminal
+    # arrives while the operator is in Wait()) the run is sequential; if the scheduler lets the terminal in before the operator has
+    # reached Wait() the run shows the listed Wait-window schedule instead (known finding waitWindow) - that happens once in
+    # several thousand runs and not again on a re-run, whereas a loop that does not wait for the end of the teardown overlaps every
+    # time: a disagreement must reproduce twice
+    slow = [r for r in rows if ' tdslow=1' in r[0]]
+    rows = [r for r in rows if ' tdslow=1' not in r[0]]
+    R.compare(ctx, slow, proj_resub, 'C15 attempts with a slow teardown: the next attempt starts when the previous teardown has returned', nontrivial=nontrivial_resub, recheck=2)
     R.compare(ctx, rows, proj_resub, 'C15 trace, subscribe/teardown log, attempts, live gauge of re-subscribing operators',
               oracle=oracle_resub, nontrivial=nontrivial_resub)
     dist = {}
